@@ -1,20 +1,22 @@
 """C06 check configuration (see lib/runner.py for the meaning of the keys)."""
 import os
 
-# which of fixes/C06-F3/F4/F5.diff the tree under test contains: a Coq term of type `fixes`
-# (no_fix | all_fix | {| fix_F3 := ..; fix_F4 := ..; fix_F5 := .. |}).  VERIF_C06_FIXES overrides it for trying the
-# candidate repairs in a scratch worktree.
-_FIXES = os.environ.get("VERIF_C06_FIXES", "no_fix")
+# which of the repairs of C06-F3/F4/F5 (fix: commits 2d9cd1f, 003095f, f6ce52b; fixes/C06-F3/F4/F5.diff) the tree under
+# test contains: a Coq term of type `fixes` (all_fix | no_fix | {| fix_F3 := ..; fix_F4 := ..; fix_F5 := .. |}).
+# /repo has all three.  VERIF_C06_FIXES overrides it (e.g. to check a worktree in which one of them is reverted
+# against the model of that tree).
+_FIXES = os.environ.get("VERIF_C06_FIXES", "all_fix")
 
 P = {
     "id": "C06",
     "claimed": True,
     "coq_targets": ["Properties/C06.vo", "Run/Eval_C06.vo"],
     "theorems_module": "Properties.C06",
-    "theorems": ["C06_history_equals_fresh", "C06_lookups_equal_fresh", "C06_rejected_is_noop",
-                 "C06_rejected_iff_cannot_apply", "C06_deleted_never_match", "C06_same_source_constraint",
-                 "C06_F1_refuted", "C06_F2_refuted", "C06_F3_refuted", "C06_F4_refuted", "C06_F4_panic",
-                 "C06_F5_refuted", "C06_F6_refuted", "C06_repaired_examples", "C06_nonvacuous"],
+    "theorems": ["C06_history_equals_fresh", "C06_history_equals_fresh_any", "C06_lookups_equal_fresh",
+                 "C06_rejected_is_noop", "C06_rejected_iff_cannot_apply", "C06_deleted_never_match",
+                 "C06_same_source_constraint", "C06_F1_refuted", "C06_F2_refuted", "C06_F6_refuted",
+                 "C06_F3_pinned_refuted", "C06_F4_pinned_refuted", "C06_F4_pinned_panic", "C06_F5_pinned_refuted",
+                 "C06_repaired_examples", "C06_nonvacuous"],
     "streams": [{
         "name": "history", "pkg": "./internal/rules", "test": "TestVerifC06",
         "overlay": {"internal/rules/zz_verif_c06_test.go": "c06/c06_test.go"},
@@ -29,38 +31,43 @@ P = {
             "collisions, invalid expressions, escapes, ':' '*' inside segments, varying wildcard names, duplicate paths and ids in "
             "dedicated profiles); after EVERY prefix 10..40 probe requests (instantiations of the expressions in use and near misses, "
             "3 methods) are looked up in the history repository and in a real repository freshly loaded with the sets accepted so far. "
-            "Corpus (witnesses of C06-F1..F6, the delNode panic, two plain histories) first.  Non-trivial = the history contains an "
+            "Corpus (witnesses of C06-F1..F6 incl. the repaired F3/F4/F5 and the former delNode panic, plain histories) first.  Non-trivial = the history contains an "
             "accepted update that changes the definition of an existing rule; distinct by hash of the generated input",
     "anchors": ["internal/rules/repository_impl.go", "internal/x/radixtree/tree.go",
                 "internal/rules/ruleset_processor_impl.go", "internal/rules/rule_impl.go"],
-    "trusted": ["the theorems are about the repository over the ABSTRACT index (pattern -> values, flag; no node compression, no "
-                "wildcard key names); tree.go is transcribed function by function into C06/Tree.v (executable, no proofs) and the "
-                "agreement tree = abstract index is checked by evaluation on every generated history outside guard_F3/guard_F5, "
+    "trusted": ["the theorems are about the repository over the ABSTRACT index (pattern -> values, flag; no node compression; a node's "
+                "wildcard key names are those of its values); tree.go is transcribed function by function into C06/Tree.v "
+                "(executable, no proofs) and the agreement tree = abstract index is checked by evaluation on every generated history, "
                 "not proved",
                 "route conditions are the real methodMatcher (independent of key names and captured values); captures/key names "
                 "delivered to conditions are property C03",
-                "rule hash modelled by its pre-image (the whole definition); rule identity (pointer comparison in slices.Contains) "
-                "modelled by structural equality, equivalent because toBeDeleted is a filter by a predicate on (source, id, hash)",
+                "rule hash modelled by its pre-image (the whole definition); object identity of rules and routes (pointer comparison "
+                "in slices.Contains and, since fix 003095f, in the value matcher of removeRulesFrom) is modelled by structural "
+                "equality: the same unless two equal rule objects are loaded at once, which needs duplicate ids in a set (C06-F6) or "
+                "the creation of an existing set; on those histories (about 8 % of the generated ones) models and implementation are "
+                "not compared, only the implementation's own history-vs-fresh comparison is evaluated",
                 "ruleset_processor_impl.go (version check, rule factory loop) is not on the path of this stream: the driver hands "
                 "ruleImpl values to the repository directly",
                 "sortStaticChildren/priority left out of the transcription (only permutes children searched by unique first byte)"],
     "level_text": "Proof (kernel-checked, no axioms), by induction over ALL histories of rule-set creations/updates/deletions with an "
-                  "invariant relating the known rules and the index to the specification's current rule sets: outside the guards of the "
-                  "recorded findings the index after the history EQUALS the index of a fresh load of the current sets (hence every "
-                  "lookup, for every path and every outcome of the rules' conditions, agrees); a change is rejected iff it cannot be "
-                  "applied (invalid expression / expression owned by another set) and then leaves the state unchanged (unconditionally); "
-                  "lookups only return rules of current versions; a node holds rules of one source.  Each finding has a `_refuted` "
-                  "witness.  The model is tied to the Go code by running ~1200 (quick) / 30000 (thorough) generated histories per run "
-                  "through the real repository and comparing, after every prefix, outcomes and lookups with the transcribed tree "
-                  "(all histories), with the abstract model (outside guard_F3/F5) and with a freshly built REAL repository (the "
-                  "property stated directly on the implementation).",
+                  "invariant relating the known rules and the index to the specification's current rule sets: for the tree as it is "
+                  "now (repairs 2d9cd1f, 003095f, f6ce52b of C06-F3/F4/F5), outside the guards of the three open findings, the index "
+                  "after the history EQUALS the index of a fresh load of the current sets (hence every lookup, for every path and "
+                  "every outcome of the rules' conditions, agrees); a change is rejected iff it cannot be applied (invalid expression / "
+                  "incompatible wildcard names / expression owned by another set) and then leaves the state unchanged (the latter "
+                  "unconditionally); lookups only return rules of current versions; a node holds rules of one source.  The same "
+                  "theorems hold for every combination of the repairs (pinned commit: six guards); every finding has a `_refuted` / "
+                  "`_pinned_refuted` witness.  The model is tied to the Go code by running ~1200 (quick) / 30000 (thorough) generated "
+                  "histories per run through the real repository and comparing, after every prefix, outcomes and lookups with the "
+                  "transcribed tree, with the abstract model and with a freshly built REAL repository (the property stated directly "
+                  "on the implementation).",
     "level_note": "Partial in one respect: the theorems are proved for the repository over the abstract pattern-map index; the step from "
-                  "the transcribed compressed radix tree (C06/Tree.v) to that index is tested on every run (all generated histories "
-                  "outside guard_F3/guard_F5), not proved.  Open findings (guards in the theorem): C06-F1 changed rule re-appended / "
-                  "reordering ignored, C06-F2 node flag = last Add, C06-F3 delete fails after a prefix split before ':' '*' or an "
-                  "escape, C06-F4 duplicate path in one rule (incl. a delNode panic), C06-F5 stale wildcard key names reject a valid "
-                  "change, C06-F6 duplicate rule ids in one set.  Histories that create an already existing rule set are outside the "
-                  "property (compared with the models, not judged).  Trusted: Coq kernel/vm_compute; the harness (generator, ruleImpl "
+                  "the transcribed compressed radix tree (C06/Tree.v) to that index is tested on every run (every generated history), "
+                  "not proved.  Open findings (guards in the theorem): C06-F1 changed rule re-appended / reordering ignored, C06-F2 node "
+                  "flag = last Add, C06-F6 duplicate rule ids in one set.  Repaired by fix: commits: C06-F3 (delete after a prefix split "
+                  "before ':' '*' or an escape), C06-F4 (duplicate path in one rule, incl. a delNode panic), C06-F5 (stale wildcard key "
+                  "names); the pinned behaviour is documented by `_pinned_refuted` theorems.  Histories that create an already existing "
+                  "rule set are outside the property (not judged).  Trusted: Coq kernel/vm_compute; the harness (generator, ruleImpl "
                   "construction, Gallina rendering).",
     "assumptions": ["the driver constructs ruleImpl/routeImpl values directly (in-package): a rename of their fields breaks the driver, "
                     "not the property",
